@@ -12,6 +12,12 @@ Import ListNotations.
 Open Scope N_scope.
 Open Scope list_scope.
 
+Lemma oversize_false p : p + 8 < 4294967296 -> oversize p = false.
+Proof.
+  intros H. unfold oversize. change oversize_guard_bound with 4294967295. rewrite size_of_header_eq.
+  apply N.ltb_ge. lia.
+Qed.
+
 Section ConnProofs.
   Variables p0 p1 : byte.
 
@@ -157,7 +163,8 @@ Section ConnProofs.
       apply N.ltb_ge in Hge. rewrite Hge. apply N.ltb_ge in Hge.
       assert (payload_size d = len m - 8) as Hpd.
       { rewrite <- Hps. symmetry. apply (payload_size_prefix m (stream_of items tail) d fut Hs Hm8 Hge). }
-      rewrite Hpd. replace (8 + (len m - 8)) with (len m) by lia. rewrite (w32_small (len m) Hm32).
+      rewrite Hpd. rewrite (oversize_false (len m - 8)) by lia.
+      replace (8 + (len m - 8)) with (len m) by lia. rewrite (w32_small (len m) Hm32).
       destruct (N.ltb_spec (len d) (len m)) as [Hdm | Hdm].
       + (* message not complete: store, required = what is missing *)
         destruct (app_split_le m (stream_of items tail) d fut Hs) as [e [Hme Hfut]].
@@ -243,7 +250,8 @@ Section ConnProofs.
           - rewrite <- !app_assoc. f_equal. rewrite Hs, Hdata, <- app_assoc. reflexivity.
           - rewrite len_app. lia.
           - rewrite len_app. lia. }
-        rewrite Hph. replace (8 + (len got + len rest - 8)) with (len got + len rest) by lia.
+        rewrite Hph. rewrite (oversize_false (len got + len rest - 8)) by lia.
+        replace (8 + (len got + len rest - 8)) with (len got + len rest) by lia.
         rewrite (w32_small (len got + len rest)) by lia.
         destruct (N.ltb_spec (len data + len got) (len got + len rest)) as [Hin | Hout].
         * (* the message is not complete *)
